@@ -78,11 +78,20 @@ def scen_history(ch, params, out):
         elif final:
             inp, fw, layout = ch.choose(f"call{c}", [(i, f, l) for i in inputs for f in fws for l in ("flat", "nested")])
             action = "fresh"
+            if params.get("final_with_options"):
+                # the observed call itself may use a generator option (its reference is computed with the same option)
+                fo = ch.choose("final_call_option", [None] + list(params.get("override_kinds", [])))
+                if fo:
+                    action = "override"
+                    final_override = fo
         else:
             inp, fw, layout, action = ch.choose(f"call{c}", [(i, f, l, a) for i in inputs for f in fws for l in ("flat", "nested")
                                                              for a in ("fresh", "rerender", "fail", "override")])
         log.append([inp, fw, layout, action])
-        override = ch.choose(f"override_kind{c}", params.get("override_kinds", ["types_style"])) if action == "override" else None
+        if action == "override" and final and params.get("final_with_options"):
+            override = final_override
+        else:
+            override = ch.choose(f"override_kind{c}", params.get("override_kinds", ["types_style"])) if action == "override" else None
         try:
             if action == "rerender" and last is not None:
                 inp, reg = last
@@ -139,7 +148,7 @@ def parts(tier):
                 CH("history3_reserved_names", "vflib.props.c14:scen_history", {"calls": 3, "inputs": ["reserved"], "frameworks": ["pydantic", "dataclasses", "attrs"]},
                    shards=16, timeout=170, path_timeout=60),
                 CH("history3_options", "vflib.props.c14:scen_history", {"calls": 3, "inputs": ["nullonly"], "frameworks": ["pydantic", "attrs", "base"],
-                                                                        "override_kinds": ["converters", "max_literals_0"]},
+                                                                        "override_kinds": ["converters", "max_literals_0"], "final_with_options": True},
                    shards=16, timeout=170, path_timeout=60)]
     return [CH("history3", "vflib.props.c14:scen_history", {"calls": 3, "inputs": ["simple", "shared", "lists", "clash", "reserved", "nullonly"], "frameworks": ["pydantic", "dataclasses", "attrs", "base"],
                 "override_kinds": ["types_style", "converters", "max_literals_0"]},
